@@ -141,13 +141,26 @@ func runC15(r *core.Run) {
 			idx[i] = string([]byte{byte(i)})
 		}
 		nn := n
-		wordsSub(r, "structured/"+cn, fmt.Sprintf("every sequence of ≤%d headings from %d (text,form) pairs (texts %q × {ATX, Setext, ATX in quote, ATX in list item}), joined by blank lines, converted on a long-lived instance under %s; ids from the tokenized output must equal the reference model (slug + first free numeric suffix), be non-empty and pairwise distinct; distinct = id-sequence digest", nn, len(heads), c15Texts, cn),
+		wordsSub(r, "structured/"+cn, fmt.Sprintf("every sequence of ≤%d headings from %d (text,form) pairs (texts %q × {ATX, Setext, ATX in quote, ATX in list item}), joined by blank lines, converted on a long-lived instance under %s, each conversion preceded by a conversion on a second attribute-enabled instance of headings carrying the predicted ids explicitly; ids from the tokenized output must equal the reference model (slug + first free numeric suffix), be non-empty and pairwise distinct; distinct = id-sequence digest", nn, len(heads), c15Texts, cn),
 			idx, nn, func(s *core.Sub, w int) func([]byte) uint64 {
 				cv := core.NewConv(cfg)
-				var b strings.Builder
+				// history clause across instances: a second, attribute-enabled instance converts, right before each
+				// document, headings whose EXPLICIT ids are exactly the ids the model predicts for that document
+				noiseCfg := cfg
+				noiseCfg.Attr = true
+				noise := core.NewConv(noiseCfg)
+				var b, nb strings.Builder
 				return func(word []byte) uint64 {
 					b.Reset()
 					texts := make([]string, len(word))
+					for i, c := range word {
+						texts[i] = heads[c].text
+					}
+					nb.Reset()
+					for i, id := range idsModel(texts) {
+						fmt.Fprintf(&nb, "# n%d {#%s}\n\n", i, id)
+					}
+					_, _, _ = noise.Convert([]byte(nb.String()))
 					for i, c := range word {
 						if i > 0 {
 							b.WriteString("\n\n")
